@@ -43,7 +43,7 @@ REAL_VS_STUB = {
 }
 TIERS = {
     "quick": {"runs": 480, "budget_s": 60, "chunk": 6, "det_pairs": 32, "fresh": 4},
-    "thorough": {"runs": 12000, "budget_s": 900, "chunk": 8, "det_pairs": 384, "fresh": 24},
+    "thorough": {"runs": 12000, "budget_s": 900, "chunk_timeout": 900, "chunk": 8, "det_pairs": 384, "fresh": 24},
 }
 
 WORKER_CHOICES = [1, 2, 2, 3, 3, 4, 5, 8, 16, "auto"]
@@ -88,7 +88,9 @@ def _gen_frame(rng: random.Random, grid: dict, nmax: int) -> dict:
                                   "radius": r, "interface_width": rng.choice([None, 1.0])})
                     break
     frame = {"grid": grid, "droplets": drops}
-    if rng.random() < 0.3:
+    # (noise only on frames with droplets: a noise-only frame under a data-dependent threshold
+    # is hundreds of one-cell candidates, each of them a least-squares fit per schedule)
+    if rng.random() < 0.3 and drops:
         frame["noise"] = {"seed": rng.randrange(1 << 30), "amp": rng.choice([0.01, 0.05, 0.1])}
     if rng.random() < 0.12:
         frame["affine"] = [rng.choice([0.0, -1.0, 0.25]), rng.choice([1.0, 2.0, 0.5])]
@@ -450,6 +452,12 @@ def execute(case: dict) -> Outcome:
                        log_head=log.head, interleaving=None)
     fp0 = _result_fingerprint(system, base)
     log.add("serial", fp=fp0)
+    n_items = sum(len(e) for e in base.emulsions) if system == "from_storage" else len(base)
+    if n_items > 40:
+        # a deterministic cost bound (a function of the result, never of the clock): cases with
+        # very many fitted droplets run only their first two schedules
+        cnt.inc("probe.heavy_case_truncated")
+        case = {**case, "schedules": case["schedules"][:2]}
     cnt.inc("serial_calls")
     cnt.inc(f"system.{system}")
     # O2: run-to-run determinism of the serial path, on fresh copies of the input and on the
